@@ -404,12 +404,25 @@ class Check(PropertyCheck):
                   "tls_start_server, on real in-memory TLS handshakes against tls_start_client's SSL.Connection, and on the real layer stacks "
                   "ServerTLSLayer>ClientTLSLayer and HttpProxy>ClientTLSLayer>HttpLayer>CONNECT>ClientTLSLayer with real NextLayer/TlsConfig "
                   "hooks and real TLS peers, where the model PREDICTS the upstream server's choice, the upstream offers, the outer and the "
-                  "inner client protocol from the inputs alone.")
+                  "inner client protocol from the inputs alone. The DECISION which handshake is a secure web proxy's outer one (tls_start_client's test "
+                  "on context.layers, NextLayer's explicit-proxy stack) is transcribed and proved (swp_outer_recognised, nested_handshake_not_outer, "
+                  "other_modes_not_outer; tied by calling tls_start_client on real layer lists); the chain theorems hold without any hypothesis on the "
+                  "offers (eager_chain_mirrors_total, eager_chain_http2_off_total); QUIC clients: quic_start_client's protocol list and aioquic's "
+                  "negotiate are transcribed and tied, quic_selected_offered and quic_upstream_known_mirrored (full strength: that protocol or nothing). "
+                  "Clauses: 'offered or none' = selected_in_offers_or_none, table_selected_in_offers_or_none, lifted_selected_in_offers, "
+                  "eager_chain_selected_offered, quic_selected_offered | oracle judge #1; 'upstream known => that protocol or none' = "
+                  "upstream_known_mirrored_partial + _counterexample (F-C18a), upstream_refused_none, mirrored_when_mitmproxy_chose_offers, "
+                  "eager_chain_mirrors(_total), nested_inner_ignores_outer, quic_upstream_known_mirrored | judge #2; 'no h2 when http2 off' = "
+                  "http2_off_never_h2_partial + _counterexample (F-C18b), http2_off_never_h2_reachable, eager_chain_http2_off(_total), "
+                  "table_http2_off_never_h2 | judge #3; 'secure web proxy outer connection only http/1.1' = swp_only_http11, table_swp_only_http11, "
+                  "swp_outer_recognised, nested_outer_http11 | judge #4.")
     level_note = ("trusted: Lean kernel; the translator's enumeration (table rows are results of real calls); OpenSSL/pyOpenSSL invoke the "
                   "select callback with the client's offer list and negotiate what it returns (checked by ~100+ real handshakes per run, "
                   "not proved); the upstream server selects the first protocol of ITS preference list that was offered, or nothing (peerSelect: "
                   "OpenSSL SSL_select_next_proto semantics, validated against CPython ssl servers in every run; a server selecting something "
-                  "that was not offered would break TLS). QUIC (quic_start_client / ClientQuicLayer) is fingerprinted but not driven. Two properties hold only "
+                  "that was not offered would break TLS). QUIC: quic_start_client and aioquic.tls.negotiate are called for real and tied, no QUIC handshake is driven; on the QUIC path an upstream "
+                  "that negotiated NOTHING (server.alpn == b\"\") is not mirrored — the client's own offer list is handed to aioquic and the client gets "
+                  "its first offer (quic_without_upstream_protocol; outside C18's observation points, no oracle clause, reported as an observation). Two properties hold only "
                   "under the guard 'upstream protocol is among this client's offers / is not h2 when http2 is off'; outside it the real "
                   "callback falls back to the client's first HTTP protocol (recorded findings F-C18a, F-C18b; *_partial and "
                   "*_counterexample in Lean). Deviation from DESIGN §5: the table has offer lists of length <=3 (not <=4) and only the two "
@@ -433,7 +446,8 @@ class Check(PropertyCheck):
                     "mitmproxy.proxy.layers.tls:ServerTLSLayer.start_handshake",
                     "mitmproxy.proxy.layers.tls:ClientTLSLayer.__init__",
                     "mitmproxy.proxy.layers.quic._stream_layers:ClientQuicLayer.__init__",
-                    "mitmproxy.addons.next_layer:NextLayer._setup_explicit_http_proxy"]
+                    "mitmproxy.addons.next_layer:NextLayer._setup_explicit_http_proxy",
+                    "mitmproxy.addons.tlsconfig:TlsConfig.quic_start_client"]
     trusted_base = ["OpenSSL/pyOpenSSL ALPN: the select callback receives the client's offers; its return value is what is negotiated",
                     "TLS: the protocol negotiated upstream is one of the protocols offered upstream"]
     parallel = False
